@@ -55,6 +55,18 @@ type engine struct{}
 
 func (*engine) ID() string { return "C10" }
 
+// degraded reports that the instrumenter found concurrency inside the library
+// that the baton cannot own (go statements, channels, select, WaitGroup, Cond).
+// The pinned tree has none. If a change introduces some, tasks are no longer
+// preempted inside operations and no map-order choices are drawn (foreign
+// goroutines would draw concurrently); results are still compared across the
+// reference, repeated, task and cross-process executions, and the evidence
+// says simulation_degraded.
+func degraded() bool { return len(instrDegraded) > 0 }
+
+// StatisticalReplay implements simkit.StatisticalReplayer.
+func (*engine) StatisticalReplay() bool { return degraded() }
+
 func (*engine) Plan(tier string) int64 {
 	if raceBuild {
 		if tier == "thorough" {
@@ -89,7 +101,7 @@ func (*engine) Describe() simkit.Description {
 		Real:      []string{"geom (entire package, AST-instrumented)", "rtree (entire package, AST-instrumented)"},
 		Simulated: []string{"caller goroutines (seeded baton scheduler)", "map iteration order (seeded per range invocation)", "user callbacks (TransformXY / WithTransform / R-tree search callbacks: yields, aborts)", "garbage collector timing (forced GC at switches)", "caller buffer reuse", "logical step clock"},
 		Stubbed:   []string{},
-		Extra:     map[string]interface{}{"race_build": raceBuild, "catalogue_operations": len(catalogue)},
+		Extra:     map[string]interface{}{"race_build": raceBuild, "catalogue_operations": len(catalogue), "simulation_degraded": degraded(), "simulation_degraded_because": instrDegraded},
 	}
 }
 
@@ -581,7 +593,9 @@ func (e *engine) Run(src *vs.Source, tier string, idx int64) (res *simkit.RunRes
 
 		// ---- concurrent phase
 		sim := &vs.Sim{Sched: src.Stream("sched"), MaxSwitchLog: 256}
-		if raceBuild {
+		if degraded() {
+			sim.Plan = vs.NewSwarmPlan(sim.Sched, [5]int{1, 0, 0, 0, 0}, 1)
+		} else if raceBuild {
 			sim.Plan = vs.NewSwarmPlan(sim.Sched, [5]int{0, 1, 0, 1, 6}, 12)
 		} else {
 			sim.Plan = vs.NewSwarmPlan(sim.Sched, [5]int{1, 6, 2, 1, 1}, 15)
@@ -621,7 +635,11 @@ func (e *engine) Run(src *vs.Source, tier string, idx int64) (res *simkit.RunRes
 						continue
 					}
 					tk.ResetTags()
-					tk.SetBudget(10*refSteps[t][i] + 200000)
+					if degraded() {
+						tk.SetBudget(1 << 40) // a budget panic on a foreign goroutine could not be recovered
+					} else {
+						tk.SetBudget(10*refSteps[t][i] + 200000)
+					}
 					setInflight(inflight, t, catalogue[op.Entry].family+":"+catalogue[op.Entry].name)
 					markOp(op)
 					r := execOp(op, p, op.Scribble)
@@ -640,6 +658,9 @@ func (e *engine) Run(src *vs.Source, tier string, idx int64) (res *simkit.RunRes
 				task.Policy = vs.MapPolicy{Rev: 1, Perm: 3}
 			default:
 				task.Policy = vs.MapPolicy{Canon: 8, Rev: 1, Rot: 1, Perm: 1}
+			}
+			if degraded() {
+				task.Policy = vs.MapPolicy{} // no draws: goroutines the library starts would draw concurrently
 			}
 		}
 		if err := sim.Run(); err != nil {
